@@ -487,6 +487,8 @@ pub fn i256_div_mod_floor(
 #[cfg(fpdec_verif)]
 #[doc(hidden)]
 pub mod verif_hooks {
+    pub use crate::parser::verif::{chunk_contains_8_digits, chunk_to_u64};
+
     pub fn u128_mul_u128(x: u128, y: u128) -> (u128, u128) {
         super::u128_mul_u128(x, y)
     }
